@@ -40,6 +40,7 @@ class Knobs:
         # focus of the case: None (general) | "observers" (observer positions across nesting, no fallible middleware graphs)
         # | "errors" (error handlers registered at several nesting levels, unrelated handlers in between)
         self.flavour = None
+        self.p_generics = 0.5
         self.__dict__.update(kw)
         if self.flavour == "observers":
             self.n_obs = (3, 6)
@@ -427,11 +428,84 @@ def gen_inclass(rng, knobs=None):
         target_items.insert(rng.randint(0, len(target_items)), ["eh", ehid])
     spec["errors"] = spec["errors"] + spec.pop("errors_local", [])
     _attach_some_error_handlers(rng, spec)
+    if rng.random() < kn.p_generics:
+        add_generics(rng, spec, kn)
     if kn.domains:
         domainize(rng, spec)
     if kn.avoid_known:
         repair_known(spec)
+    vary_cloning_representation(rng, spec)
     return spec
+
+
+def _bp_nodes(bp, depth=0):
+    yield bp, depth
+    for it in bp["items"]:
+        if it[0] == "nest":
+            yield from _bp_nodes(it[2], depth + 1)
+
+
+def add_generics(rng, spec, kn):
+    """Generic (output-driven) constructors, specialised at several concrete types, with concrete or generic overrides in
+    nested blueprints: `fn cg<T>(t: &T) -> G<T>` at the root, optionally `fn cgc(..) -> G<Tk>` / another generic one nested.
+    Everybody only borrows G<..> immutably (clause a), so the application stays inside C02's class."""
+    # (the generic constructor borrows its argument: values that are moved into their single consumer are not eligible)
+    concrete = [t for t, ty in spec["types"].items() if not ty.get("generic") and ty.get("disc") != "moved"]
+    if not concrete:
+        return
+    lc = rng.choice(["request", "transient"])
+    g = "G0"
+    spec["types"][g] = {"lc": lc, "disc": "shared", "generic": True, "clone": rng.random() < 0.3}
+    spec["ctors"]["CG0"] = {"out": g + "<T>", "ins": [["T", "ref"]], "lc": lc, "generic_param": "T"}
+    spec["bp"]["items"].insert(0, ["ctor", "CG0"])
+    args = rng.sample(concrete, min(len(concrete), rng.choice([1, 2, 2, 3])))
+    users = [(k, xid) for k in ("handlers", "mws", "fallbacks") for xid in spec[k]]
+    if kn.flavour == "observers":
+        users = [(k, xid) for (k, xid) in users if k != "mws"]
+    rng.shuffle(users)
+    for i, (k, xid) in enumerate(users[:rng.choice([2, 3, 4, 5])]):
+        a = args[i % len(args)]
+        spec[k][xid].setdefault("ins", []).append(["%s<%s>" % (g, a), "ref"])
+    # overrides in nested blueprints (nearest registration wins; a concrete and a generic constructor never share a blueprint)
+    nested = [bp for (bp, d) in _bp_nodes(spec["bp"]) if d > 0]
+    rng.shuffle(nested)
+    for n, bp in enumerate(nested[:rng.choice([0, 1, 1, 2])]):
+        if rng.random() < 0.5:
+            a = rng.choice(args)
+            cid = "CG0_c%d" % n
+            spec["ctors"][cid] = {"out": "%s<%s>" % (g, a), "ins": [], "lc": lc}
+        else:
+            cid = "CG0_g%d" % n
+            spec["ctors"][cid] = {"out": g + "<T>", "ins": [["T", "ref"]], "lc": lc, "generic_param": "T"}
+        bp["items"].insert(0, ["ctor", cid])
+
+
+def vary_cloning_representation(rng, spec):
+    """The effective cloning policy of a constructor (`cloning`) can be written in its attribute or set when it is
+    registered (`bp.constructor(C).clone_if_necessary()` / `.never_clone()`), the latter overriding the former."""
+    regs = {}
+    for bp, _d in _bp_nodes(spec["bp"]):
+        for it in bp["items"]:
+            if it[0] == "ctor":
+                regs.setdefault(it[1], []).append(it)
+    for cid, c in spec["ctors"].items():
+        its = regs.get(cid, [])
+        if len(its) != 1 or rng.random() > 0.35:
+            continue
+        eff = c.get("cloning")
+        base = c["out"].split("<")[0]
+        ty = spec["types"].get(base, {})
+        it = its[0]
+        if len(it) < 3:
+            it.append({})
+        if eff == "cin":
+            c["ann_cloning"] = rng.choice([None, "never"])
+            it[2]["cloning"] = "cin"
+        else:
+            # effective never-clone (explicit or default): the attribute may even say clone_if_necessary
+            c["ann_cloning"] = "cin" if (ty.get("clone") or ty.get("copy")) and rng.random() < 0.6 else None
+            it[2]["cloning"] = "never"
+            c["cloning"] = "never"
 
 
 GUARD_POOLS = [
@@ -512,8 +586,8 @@ def repair_known(spec):
                 child = it[2]
                 for cit in list(child["items"]):
                     if cit[0] == "ctor" and "_" in cit[1] and spec["ctors"][cit[1]]["lc"] == "request":
-                        t = spec["ctors"][cit[1]]["out"]
-                        users = [x for x in mws_here if any(tt == t for (_c, tt) in m.closure(x)) or any(tt == t for (tt, _m) in spec["mws"][x]["ins"])]
+                        t = spec["ctors"][cit[1]]["out"].split("<")[0]
+                        users = [x for x in mws_here if any(tt.split("<")[0] == t for (_c, tt) in m.closure(x)) or any(tt.split("<")[0] == t for (tt, _m) in spec["mws"][x]["ins"])]
                         if len(users) >= 2:
                             child["items"].remove(cit)
                             del spec["ctors"][cit[1]]
@@ -559,17 +633,29 @@ def certificate(spec):
     uses = {t: [] for t in spec["types"]}  # (owner id, owner kind, mode)
     for cid, c in spec["ctors"].items():
         for (t, mode) in c["ins"]:
-            uses[t].append((cid, "ctor", mode))
+            if t == c.get("generic_param"):
+                continue
+            uses[t.split("<")[0]].append((cid, "ctor", mode))
     for k in ("mws", "handlers", "fallbacks", "ehs", "obs"):
         for xid, x in spec[k].items():
             for (t, mode) in x.get("ins", []):
-                uses[t].append((xid, k, mode))
+                uses[t.split("<")[0]].append((xid, k, mode))
+    # a specialisation `G<A>` of a generic constructor uses `A` the way the constructor's signature says
+    for k in ("mws", "handlers", "fallbacks", "ehs", "obs"):
+        for xid, x in spec[k].items():
+            for (t, mode) in x.get("ins", []):
+                if "<" in t:
+                    for cid, c in spec["ctors"].items():
+                        if c.get("generic_param") and m.ctor_out_matches(cid, t):
+                            for (u, mo) in m.ctor_inputs(cid, t):
+                                if u.split("<")[0] in uses:
+                                    uses[u.split("<")[0]].append(("%s@%s" % (cid, t), "ctor", mo))
     for t, ty in spec["types"].items():
         us = uses[t]
         modes = set(mo for (_, _, mo) in us)
         if "mut" in modes:
             problems.append("%s is injected as &mut" % t)
-        cins = [c.get("cloning") == "cin" for c in spec["ctors"].values() if c["out"] == t]
+        cins = [c.get("cloning") == "cin" for c in spec["ctors"].values() if c["out"].split("<")[0] == t]
         if ty.get("copy"):
             clause[t] = "c"
         elif ty["lc"] == "transient":
@@ -596,7 +682,7 @@ def certificate(spec):
     for cid, c in spec["ctors"].items():
         if c["lc"] == "singleton":
             for (t, _) in c["ins"]:
-                if spec["types"][t]["lc"] != "singleton":
+                if t.split("<")[0] in spec["types"] and spec["types"][t.split("<")[0]]["lc"] != "singleton":
                     problems.append("singleton ctor %s depends on %s" % (cid, t))
     # every injected type has a constructor in scope of the injecting root component
     for k in ("mws", "handlers", "fallbacks", "obs"):
@@ -616,7 +702,7 @@ def certificate(spec):
                 if cid is None:
                     problems.append("%s needs %s but no constructor is in scope" % (xid, t))
                     continue
-                stack += [u for (u, _) in spec["ctors"][cid]["ins"]]
+                stack += [u for (u, _) in m.ctor_inputs(cid, t)]
     return (not problems), problems, clause
 
 
